@@ -1,0 +1,20 @@
+//go:build verif
+
+/*
+ * Verification hooks (build tag `verif`): add-only accessors used by the /verif harness.
+ * Nothing in this file is compiled into a normal build.
+ */
+
+package compose
+
+import "errors"
+
+// VerifErrNodePath returns the node path recorded in the first *internalError of err's
+// Unwrap chain (what errors.As finds), and whether there is one.
+func VerifErrNodePath(err error) ([]string, bool) {
+	var ie *internalError
+	if !errors.As(err, &ie) {
+		return nil, false
+	}
+	return append([]string{}, ie.nodePath.path...), true
+}
